@@ -54,14 +54,12 @@ Definition img_shows (k : nat) (i : wimg) : bool :=
   | _ => false
   end.
 
-(* where invocation k's result leads once it is durable: OOk ends Completed, OPerm / OWrongType end Failed at
-   once, OErr / OOverrun retry while k+1 <= retries *)
+(* where invocation k's result leads once it is durable: a final outcome (success; permanent error; wrong-typed
+   response, whatever the error) closes the run with the verdict is_ok; a retryable one (transient error,
+   overrun) retries while k+1 <= retries, else the run is closed as failed *)
 Definition after_ret (r k : nat) (o : outcome) : aphase :=
-  match o with
-  | OOk => APend true (S k)
-  | OPerm | OWrongType => APend false (S k)
-  | OErr | OOverrun => if S k <=? r then ARun (S k) else APend false (S k)
-  end.
+  if is_final o then APend (is_ok o) (S k)
+  else if S k <=? r then ARun (S k) else APend false (S k).
 
 Definition handle (r : nat) (s : ast) (e : aevent) : option ast :=
   match a_ph s, e with
